@@ -41,16 +41,19 @@ Init == /\ born = FALSE /\ top = FALSE /\ stored = EmptyFn /\ latest = None
 
 New(t) ==
   /\ ~born
+  /\ OneShot => ~t
   /\ born' = TRUE /\ top' = t
   /\ UNCHANGED <<stored, latest, res, out>>
   /\ act' = [name |-> "New", top |-> t]
 
-\* store_block: if let Some(current) = latest && let Some(next) = current.succ() && height != next
-\*              { return Err }  insert Blocks[height]; LatestBlock := Local(height); commit
+\* store_block: if let Some(current) = latest { if current.succ() != Some(height) { return Err } }
+\*              insert Blocks[height]; LatestBlock := Local(height); commit
+\* (before the fix recorded in known_findings.d/C43.json the check was skipped when current.succ() is
+\*  None, so after a block at u32::MAX any height was accepted)
 Store(h, p) ==
   /\ born
   /\ OneShot => latest = None
-  /\ IF latest # None /\ Succ(latest) # None /\ h # Succ(latest)
+  /\ IF latest # None /\ h # Succ(latest)
      THEN /\ res' = [store |-> "Err", conv |-> "Ok"]
           /\ UNCHANGED <<stored, latest>>
      ELSE /\ stored' = Put(stored, h, p)
@@ -98,5 +101,10 @@ RoundTrip ==
   /\ res.conv = "Ok"
   /\ \A i \in 1..Len(out.items) : out.items[i].rt = TRUE
 
-StateRec == [born |-> born, top |-> top, stored |-> stored, latest |-> latest, res |-> res, out |-> out]
+\* the same statements about the successor of every step (res / out are results of the last call only and
+\* are kept out of the model checker's VIEW and of the edge graph)
+RangeFaithfulStep == [][RangeFaithful']_vars
+RoundTripStep == [][RoundTrip']_vars
+
+StateRec == [born |-> born, top |-> top, stored |-> stored, latest |-> latest]
 =============================================================================
